@@ -97,7 +97,14 @@ impl Scenario for CryptSc {
             p.set("g", ((index / l.len() as u64 + index) % 2) as i64);
             p.set("scheme", ((index / 2) % 3) as i64);
         }
-        match class.trim_end_matches("-big") {
+        // "td-extremes" / "eg-extremes": the procedure of td-protocol / eg-tally with n = 255 and every t in 2..=40
+        let extremes = class.ends_with("-extremes");
+        let base_class = match class {
+            "td-extremes" => "td-protocol",
+            "eg-extremes" => "eg-tally",
+            c => c.trim_end_matches("-big"),
+        };
+        match base_class {
             "sc-roundtrip" => {
                 if x.chance(1, 2) {
                     let at = x.range(1, 30) as i64;
@@ -174,11 +181,22 @@ impl Scenario for CryptSc {
             }
             _ => {}
         }
+        if extremes {
+            p.set("g", (index % 2) as i64);
+            p.set("t", 2 + ((index / 2) % 39) as i64);
+            p.set("n", if (index / 78) % 2 == 0 { 255 } else { 254 });
+            p.set("scheme", ((index / 2) % 3) as i64);
+        }
         p
     }
     fn run(&self, plan: &Plan, env: &Env, rec: &mut Rec) {
         let lib = env.cur;
-        match plan.class.trim_end_matches("-big") {
+        let base_class = match plan.class.as_str() {
+            "td-extremes" => "td-protocol",
+            "eg-extremes" => "eg-tally",
+            c => c.trim_end_matches("-big"),
+        };
+        match base_class {
             "sc-roundtrip" => sc_roundtrip(plan, lib, rec),
             "sc-tamper" => sc_tamper(plan, lib, rec, false),
             "sc-bitflip-all" => sc_tamper(plan, lib, rec, true),
